@@ -136,8 +136,6 @@ def stepC10 (d : DSt) (op : String) (got : String) : StepResult DSt :=
           | .drop => (some s!"ps={r.1.length}", [if r.1.length > d.store.length then "rx-store-new" else if r.1.length > 0 ∧ info.frames.length > 1 then "rx-store-more" else "rx-drop"])
           | .deliver x => (some s!"ps={r.1.length} {deliveryText x.wire x.token x.mark}",
                            [if info.frames.length > 1 then "rx-deliver-reassembled" else "rx-deliver-single"])
-          | .panic _ => (none, ["rx-panic"])
-          | .alloc _ => (none, ["rx-alloc"])
         -- ---------- specification on the implementation's deliveries
         let dup := info.handed.contains i
         let judge := d.judgeRx && info.judged && !dup
